@@ -193,6 +193,7 @@ fn real_main() {
                 roundtrip: flag("--roundtrip"),
                 unsplit: flag("--unsplit"),
                 appends: flag("--appends"),
+                splits: flag("--splits"),
                 parity_odd: parity == "odd",
                 max_states: arg("--max-states", "1000000").parse().unwrap(),
                 max_seconds: arg("--max-seconds", "45").parse().unwrap(),
